@@ -278,9 +278,11 @@ struct NumaNodeManager {
 
 /// NUMA-aware memory pool for each node
 struct NumaMemoryPool {
-    small_chunks: Vec<usize>, // < 1KB allocations (stored as usize for Send/Sync)
-    medium_chunks: Vec<usize>, // 1KB - 64KB allocations
-    large_chunks: Vec<usize>, // > 64KB allocations
+    // Cached chunks are remembered together with the layout they were allocated with, so that
+    // they are only reused for an identical request and are released with the right layout.
+    small_chunks: Vec<(usize, Layout)>, // < 1KB allocations (address stored as usize for Send/Sync)
+    medium_chunks: Vec<(usize, Layout)>, // 1KB - 64KB allocations
+    large_chunks: Vec<(usize, Layout)>, // > 64KB allocations
     allocated_bytes: AtomicUsize,
     hit_count: AtomicUsize,
     miss_count: AtomicUsize,
@@ -307,8 +309,9 @@ impl NumaMemoryPool {
             &mut self.large_chunks
         };
 
-        // Try to reuse from pool first
-        if let Some(ptr_addr) = pool.pop() {
+        // Try to reuse from pool first (only a chunk that was allocated with the same layout)
+        if let Some(pos) = pool.iter().position(|&(_, cached)| cached == layout) {
+            let (ptr_addr, _) = pool.swap_remove(pos);
             self.hit_count.fetch_add(1, Ordering::Relaxed);
             let ptr = ptr_addr as *mut u8;
             return NonNull::new(ptr)
@@ -344,7 +347,7 @@ impl NumaMemoryPool {
         // Return to pool for reuse (with size limits to prevent unbounded growth)
         if pool.len() < 100 {
             // Limit pool size
-            pool.push(ptr.as_ptr() as usize);
+            pool.push((ptr.as_ptr() as usize, layout));
         } else {
             // Pool is full, actually deallocate
             unsafe {
@@ -369,29 +372,15 @@ impl NumaMemoryPool {
 
 impl Drop for NumaMemoryPool {
     fn drop(&mut self) {
-        // Clean up all cached allocations
-        for &ptr_addr in &self.small_chunks {
+        // Clean up all cached allocations with the layout each one was allocated with
+        for &(ptr_addr, layout) in self
+            .small_chunks
+            .iter()
+            .chain(&self.medium_chunks)
+            .chain(&self.large_chunks)
+        {
             unsafe {
-                dealloc(
-                    ptr_addr as *mut u8,
-                    Layout::from_size_align(1024, 8).unwrap(),
-                );
-            }
-        }
-        for &ptr_addr in &self.medium_chunks {
-            unsafe {
-                dealloc(
-                    ptr_addr as *mut u8,
-                    Layout::from_size_align(64 * 1024, 16).unwrap(),
-                );
-            }
-        }
-        for &ptr_addr in &self.large_chunks {
-            unsafe {
-                dealloc(
-                    ptr_addr as *mut u8,
-                    Layout::from_size_align(1024 * 1024, 32).unwrap(),
-                );
+                dealloc(ptr_addr as *mut u8, layout);
             }
         }
     }
